@@ -384,12 +384,24 @@ def run(F, rep, tier):
     if blk is not None:
         advance_rule(F, rep, blk)
     zero_frames_rule(F, rep)
+    # the trusted base below ("seek(Current(n)) advances by n") is about the *caller's* stream: between read() and that stream
+    # sits the hashing wrapper, whose seek must be the inner seek and whose read the inner read (C11's wrapper rules), and no
+    # other function may call the short-read-sensitive Read::read directly (C07's W rule)
+    import reach as _reach
+    from props import C07 as _C07, C11 as _C11
+    _G = _reach.Graph(F)
+    _C07.exact_length_rule(F, _G, rep)
+    _C11.wrapper_rule(F, _G, rep)
+    _hn = _C11.encapsulation_rule(F, _G, rep)
+    _C11.seek_guard_rule(F, _G, rep, _hn)
     # the skip result (no frames, no Gecko codes, possibly no end) can itself be written and re-read as .slp: table rows are emitted
     # sizes of events the writer can emit, declared length = emitted length (C17's emission clause, all presence combinations)
     import emission
     import model
     M = model.Model(F, rep, want=("read_push", "write", "size"))
     emission.rule_emission(F, rep, M)
+    from props import C05 as _C05
+    _C05.end_size_rule(F, rep)
     n = peppifmt.optionality_rule(F, rep, only=("frames.arrow",))
     rep.floor("conditional writer entries checked", n, 1)
     rep.control("linear normaliser distinguishes skip from skip + 1", not linear.eq({"skip": 1, "": 1}, {"skip": 1, "": 0}))
